@@ -12,9 +12,9 @@ RULE = (
     "x protocols 0-5 (2-5 for __slots__ classes) + deepcopy; random trees <=40 nodes, depth <=100; distinct = hash of the configuration; trivial = none"
 )
 ASSUMPTIONS = ["depth <= 100 (pickle/deepcopy recursion limits are Python's)", "node classes are importable module-level classes (a pickle requirement)"]
-GATES = ["mon.C19.bijection", "mon.C19.independence", "C19.pickle", "C19.deepcopy", "C19.symlink_inside", "C19.symlink_outside", "C19.link_to_link", "C19.slots", "C19.entry_not_root"]
+GATES = ["mon.C19.bijection", "mon.C19.independence", "C19.pickle", "C19.deepcopy", "C19.symlink_inside", "C19.symlink_outside", "C19.link_to_link", "C19.slots", "C19.entry_not_root", "C19.special_method_classes"]
 
-MIXES = ("Node", "AnyNode", "NM", "LM", "MIXSYM", "HNode")
+MIXES = ("Node", "AnyNode", "NM", "LM", "MIXSYM", "HNode", "FALSY", "VALNM", "VALLM", "FALSYNODE")
 
 
 def plan(tier, seed, jobs):
@@ -36,12 +36,20 @@ def build(par, mix, rng):
         nodes = [F.NM("n%d" % i) for i in range(n)]
     elif mix == "LM":
         nodes = [F.LM("n%d" % i) for i in range(n)]
+    elif mix == "FALSY":
+        nodes = [F.FalsyNM("n%d" % i, i % 2) for i in range(n)]  # leaves are falsy (len == number of children)
+    elif mix == "FALSYNODE":
+        nodes = [F.FalsyNode("n%d" % i, w=i) for i in range(n)]  # every node is falsy
+    elif mix == "VALNM":
+        nodes = [F.ValNM("n%d" % i, i % 2) for i in range(n)]  # distinct nodes compare and hash equal
+    elif mix == "VALLM":
+        nodes = [F.ValLM("n%d" % i, i % 2) for i in range(n)]
     elif mix == "HNode":
         nodes = [F.HNode("n%d" % i, w=i * 1.5) for i in range(n)]
     else:
         # rotation of classes, symlinks with targets inside the tree, outside, and link to link
         other_root = F.Node("other", mark="o")
-        other_kid = F.AnyNode(parent=other_root, id="ok")
+        other_kid = F.AnyNode(parent=other_root, id="ok", name="ok")
         extra = [other_root, other_kid]
         nodes = []
         for i in range(n):
@@ -57,7 +65,7 @@ def build(par, mix, rng):
             elif r == 4:
                 nodes.append(F.HSymMixin(nodes[i - 1]))
             else:
-                nodes.append(F.AnyNode(id=i))
+                nodes.append(F.AnyNode(id=i, name="a%d" % i))  # a name keeps Node.__repr__ of mixed trees working
     for i, p in enumerate(par):
         if p is not None:
             nodes[i].parent = nodes[p]
@@ -216,7 +224,7 @@ def check_copy(ctx, how, entry_idx, nodes, extra, case, rng):
                         x.zz_new = ("mut", side)
                     else:
                         x.name = "renamed-" + side
-            except (F.TreeError, AttributeError):
+            except F.TreeError:
                 pass
         if snapshot_with_attrs(watch) != wsnap:
             ctx.violation("C19/%s/not-independent/%s-mutated" % (kind, side), "independence", cfg, expected="other side unchanged", observed="changed")
@@ -234,8 +242,10 @@ def check_tree(ctx, par, mix, case, entries, hows, seedtag):
                 ctx.count("C19.symlink_outside")
                 if len(par) >= 4:
                     ctx.count("C19.link_to_link")
-            if mix == "LM":
+            if mix in ("LM", "VALLM"):
                 ctx.count("C19.slots")
+            if mix in ("FALSY", "FALSYNODE", "VALNM", "VALLM"):
+                ctx.count("C19.special_method_classes")
             ctx.case((tuple(par), mix, e, how), sample=dict(case, entry=e, how=how) if ctx.evals % 3001 == 0 else None)
             with ctx.guard(dict(case, entry=e, how=how)):
                 if not check_copy(ctx, how, e, nodes, extra, case, rng):
@@ -244,7 +254,7 @@ def check_tree(ctx, par, mix, case, entries, hows, seedtag):
 
 
 def hows_for(mix):
-    if mix == "LM":
+    if mix in ("LM", "VALLM"):
         return ["2", "3", "4", "5", "deepcopy"]
     return ["0", "1", "2", "3", "4", "5", "deepcopy"]
 
